@@ -95,3 +95,44 @@ Definition spec_ok (ws : list watcher) (sched : list event) (how : via)
   && spec_stream ws (chunks_of false sched) (proj false sched writes) (fst raised)
   && spec_stream ws (chunks_of true sched) (proj true sched writes) (snd raised)
   && opt_exn_eqb exc (if fst raised || snd raised then Some (exn_of how) else None).
+
+(** * The region in which the present code is proved to meet the specification
+
+    [fa] / [ft]: the index repair / the [tried] repair is in place ([false] for the
+    code as it stands).  A read is harmless for pattern [q] when no occurrence is
+    completed by it, or when the whole-text scanner is not in the middle of an
+    occurrence at the end of the read (no occurrence straddles the read boundary
+    after a match in the same read -- F-C12a cannot lose anything).  For a failing
+    watcher a read is harmless when it is the stream's first, or completes no
+    sentinel, or the watcher has answered before (F-C12b cannot make it raise
+    without a response). *)
+Definition quiet (q : pattern) (B c R : text) : bool :=
+  Nat.eqb (news q B c) 0 || Nat.eqb (st q 0 ((B ++ c) ++ R) (List.length (B ++ c))) 0.
+
+Definition guard_w (fa ft : bool) (w : watcher) (r first : bool) (B c R : text) : bool :=
+  (fa || quiet (pat_of w) B c R)
+  && match w with
+     | WFail _ _ s => (fa || quiet s B c R) && (ft || first || r || Nat.eqb (news s B c) 0)
+     | WResp _ _ => true
+     end.
+
+Fixpoint guard_ws (fa ft : bool) (ws : list watcher) (resp : list bool) (first : bool)
+         (B c R : text) : bool :=
+  match ws, resp with
+  | w :: ws', r :: resp' => guard_w fa ft w r first B c R && guard_ws fa ft ws' resp' first B c R
+  | _, _ => true
+  end.
+
+Fixpoint guard_stream (fa ft : bool) (ws : list watcher) (B : text) (resp : list bool)
+         (first : bool) (chunks : list text) : bool :=
+  match chunks with
+  | [] => true
+  | c :: cs =>
+      guard_ws fa ft ws resp first B c (List.concat cs)
+      && (if raises ws resp B c then true
+          else guard_stream fa ft ws (B ++ c) (responded ws resp B c) false cs)
+  end.
+
+Definition guard (fa ft : bool) (ws : list watcher) (sched : list event) : bool :=
+  guard_stream fa ft ws [] (map (fun _ => false) ws) true (chunks_of false sched)
+  && guard_stream fa ft ws [] (map (fun _ => false) ws) true (chunks_of true sched).
